@@ -53,7 +53,7 @@ RECURSIVE NormCrDoc(_)
 NormCrDoc(v) ==
   IF v[1] = "str" THEN <<"str", EncodeCps(NormEol(StrBytesToCps(v[2])[2], 1), "utf8", 1)>>
   ELSE IF v[1] = "arr" THEN <<"arr", [i \in 1..Len(v[2]) |-> NormCrDoc(v[2][i])]>>
-  ELSE IF v[1] = "map" THEN <<"map", [i \in 1..Len(v[2]) |-> <<v[2][i][1], NormCrDoc(v[2][i][2])>>]>>
+  ELSE IF v[1] = "map" THEN <<"map", [i \in 1..Len(v[2]) |-> <<v[2][i][1], IF v[2][i][1][1] = "attr" THEN v[2][i][2] ELSE NormCrDoc(v[2][i][2])>>]>>     \* attribute values carry CR as &#13;
   ELSE v
 Export == PrintT(<<"GEN", ToJson([root |-> root, opt |-> opt, exp |-> Exec(Doc, root, RtPol), expsave |-> "ok",
                                  expdev |-> IF NormCrDoc(Doc) = Doc THEN <<>> ELSE <<[dev |-> "Dev_XmlCrNotEscaped", exp |-> Exec(NormCrDoc(Doc), root, RtPol)]>>])>>)
